@@ -1,8 +1,7 @@
 #!/usr/bin/env python3
-"""Fast regression over stored seeds: for every seeded/<id> the patch is applied in a scratch worktree of /repo (removed
-afterwards) and the quick checks are run against it until one fires — the properties that detected the seed last time
-first. No test suite is run (the seed was validated when it was stored). Prints one line per seed and writes
-seeded/<id>/quick.json. usage: quickregress.py [-j N] <seed-dir>..."""
+"""Fast regression over the stored negative controls: for every benign/<id> the patch is applied in a scratch worktree of
+/repo (removed afterwards) and ALL quick checks are run against it; no test suite is run (the patch was validated when it
+was stored). Rewrites the silent/fired fields of benign/<id>/result.json. usage: quickbenign.py [-j N] <dir>..."""
 import json, os, re, shutil, subprocess, sys, tempfile
 from concurrent.futures import ThreadPoolExecutor
 V = os.path.dirname(os.path.dirname(os.path.abspath(__file__)))
@@ -43,21 +42,26 @@ def one(d):
             res["patch_output"] = out[-500:]
             return res
         shutil.copy(os.path.join(V, "known_findings.json"), vout)
-        res["caught"] = False
-        for p in order:
+        fired = {}
+        for p in ALL:
             rc, out = sh(f"{BIN} -property {p} -tier quick -repo {wt} -verif {vout}")
             if rc != 0:
                 lines = [l.strip() for l in out.splitlines() if re.match(r"\s+(VIOLATED|UNRESOLVED) ", l)]
-                res["caught"] = True
-                res["by"] = p
-                res["lines"] = [l[:300] for l in lines[:3]] or [out[-300:]]
-                break
+                fired[p] = lines or [out[-600:]]
+        res["fired"] = fired
+        res["silent"] = not fired
         return res
     finally:
         sh(f"git -C /repo worktree remove --force {wt}")
         shutil.rmtree(wt, ignore_errors=True)
         shutil.rmtree(vout, ignore_errors=True)
-        json.dump(res, open(os.path.join(d, "quick.json"), "w"), indent=1)
+        rp = os.path.join(d, "result.json")
+        try:
+            old = json.load(open(rp))
+        except Exception:
+            old = {}
+        old.update(res)
+        json.dump(old, open(rp, "w"), indent=1)
 
 
 def main():
@@ -68,8 +72,8 @@ def main():
         args = args[2:]
     with ThreadPoolExecutor(j) as ex:
         for r in ex.map(one, args):
-            tag = "NOAPPLY" if not r.get("patch_applies") else ("caught " + r.get("by", "")) if r.get("caught") else "MISSED"
-            print(r["id"], tag, (r.get("lines") or [""])[0][:160], flush=True)
+            tag = "NOAPPLY" if not r.get("patch_applies") else "silent" if r.get("silent") else "ALARM " + ",".join(sorted(r.get("fired", {})))
+            print(r["id"], tag, flush=True)
     sh("git -C /repo worktree prune")
 
 
